@@ -181,29 +181,41 @@ if __name__ == "__main__":
         shutil.rmtree(d, ignore_errors=True)
         print("saved refactor", name)
     elif a[0] == "refactor-run":
+        # tools/mut.py refactor-run [-j N] [names...]: N refactors at a time, each worker with its own cache slot
         man = json.load(open(os.path.join(VERIF, "MANIFEST.json")))
         props = [c["property_id"] for c in man["checks"]]
-        bad = 0
-        for f in sorted(os.listdir(os.path.join(VERIF, "refactors"))):
-            if not f.endswith(".patch") or (a[1:] and f[:-6] not in a[1:]):
-                continue
+        rest = a[1:]
+        jobs = 1
+        if "-j" in rest:
+            k = rest.index("-j")
+            jobs = int(rest[k + 1])
+            rest = rest[:k] + rest[k + 2:]
+        names = [f[:-6] for f in sorted(os.listdir(os.path.join(VERIF, "refactors"))) if f.endswith(".patch") and (not rest or f[:-6] in rest)]
+
+        def one_refactor(name, slot):
             d = tempfile.mkdtemp(prefix="verif-refrun-")
             try:
                 copy_repo(d)
-                r = subprocess.run(["patch", "-p1", "-s", "-i", os.path.join(VERIF, "refactors", f)], cwd=d, capture_output=True, text=True)
+                r = subprocess.run(["patch", "-p1", "-s", "-i", os.path.join(VERIF, "refactors", name + ".patch")], cwd=d, capture_output=True, text=True)
                 if r.returncode != 0:
-                    print("%-28s patch does not apply" % f[:-6])
-                    bad += 1
-                    continue
+                    print("%-28s patch does not apply" % name, flush=True)
+                    return 1
                 alarms = []
                 for p_ in props:
-                    rc, viol, out = run_check(p_, d, cache=os.path.join(VERIF, ".cache", "mutslots", "r"))
+                    rc, viol, out = run_check(p_, d, cache=os.path.join(VERIF, ".cache", "mutslots", slot))
                     if rc != 0:
                         alarms.append((p_, rc, viol[:3]))
-                print("%-28s %s" % (f[:-6], "silent on all %d checks" % len(props) if not alarms else "FALSE ALARMS: %s" % alarms), flush=True)
-                bad += 1 if alarms else 0
+                print("%-28s %s" % (name, "silent on all %d checks" % len(props) if not alarms else "FALSE ALARMS: %s" % alarms), flush=True)
+                return 1 if alarms else 0
             finally:
                 shutil.rmtree(d, ignore_errors=True)
+
+        def work(args):
+            k, lst = args
+            return sum(one_refactor(n_, "r%d" % k if jobs > 1 else "r") for n_ in lst)
+        with ThreadPoolExecutor(max_workers=jobs) as ex:
+            bad = sum(ex.map(work, enumerate([names[k::jobs] for k in range(jobs)])))
+        print("%d refactors, %d with false alarms" % (len(names), bad))
         sys.exit(1 if bad else 0)
     elif a[0] == "verify":
         # re-confirm that every stored mutant still applies and compiles (sequential: one shared target dir)
